@@ -13,8 +13,10 @@ from vcommon import Report, digest, die, run_dir, seed
 GROUP_PROP = {
     ("compose", "sound"): "C01", ("quotient", "sound"): "C02", ("merge", "exact"): "C08",
     ("compose", "keeps"): "C15", ("merge", "keeps"): "C15", ("compose", "exact"): "C15",
-    ("rename", "faithful"): "C16", ("renames", "faithful"): "C16", ("renames", "itf"): "C06",
-    ("compose", "itf"): "C06", ("quotient", "itf"): "C06", ("merge", "itf"): "C06", ("rename", "itf"): "C06",
+    ("rename", "faithful"): "C16", ("renames", "faithful"): "C16",
+    # C16 states the interface of a renaming too ("the interface lists are updated accordingly", clashes rejected): both own it
+    ("renames", "itf"): ("C06", "C16"), ("rename", "itf"): ("C06", "C16"),
+    ("compose", "itf"): "C06", ("quotient", "itf"): "C06", ("merge", "itf"): "C06",
 }
 
 
@@ -63,7 +65,8 @@ def run(prop, tier, cases, run_case, rule, replay=None, sig_extra=None, nontrivi
                 if detail.startswith("exception:"):
                     owner = "C14"
                 c14_too = detail.startswith("exception:") or detail == "itf:operand-changed-by-failed-call"
-                if owner != prop and not (prop == "C14" and c14_too):
+                owners = owner if isinstance(owner, tuple) else (owner,)
+                if prop not in owners and not (prop == "C14" and c14_too):
                     counts["other-property:" + str(owner)] = counts.get("other-property:" + str(owner), 0) + 1
                     continue
                 if not ops.reconfirm_event(ev, grp, detail):
